@@ -22,6 +22,11 @@ def convRec : CbRec → Rec
   | .succ a none => .succ a .none
   | .status v => .status v
 
+/-- the record could be printed: the model read the bytes it shows from its own buffer -/
+def Readable : CbRec → Prop
+  | .succ _ none => False
+  | _ => True
+
 /-- the writer's fields of the executable's state are untouched -/
 def SameW (s s' : XSt) : Prop := s'.w = s.w ∧ s'.wq = s.wq ∧ s'.wpos = s.wpos ∧ s'.wresv = s.wresv
 /-- the writer's fields of the monitor's state are untouched -/
@@ -111,7 +116,7 @@ theorem judgeRecs_status (m : MSt) (k : Nat) (v : Int) (rest : List Rec)
 wait `k` again) the monitor follows -/
 theorem appCallback_succ (s : XSt) (m : MSt) (a : Reader) (k : Nat) (recs : List CbRec)
     (h : RPre s m a k) (hbad : s.bad = none) :
-    ∃ rec m' a', (appCallback s 0 recs).2 = recs ++ [rec] ∧
+    ∃ rec m' a', (appCallback s 0 recs).2 = recs ++ [rec] ∧ Readable rec ∧
       (∀ rest, judgeRecs m (convRec rec :: rest) = judgeRecs m' rest) ∧
       RRel (appCallback s 0 recs).1 m' a' ∧ (appCallback s 0 recs).1.bad = none ∧
       (appCallback s 0 recs).1.rq = s.rq ∧ SameW s (appCallback s 0 recs).1 ∧ SameMW m m' ∧
@@ -144,7 +149,7 @@ theorem appCallback_succ (s : XSt) (m : MSt) (a : Reader) (k : Nat) (recs : List
       obtain ⟨rfl, rfl⟩ := e
       refine ⟨_, { m with known := a.visible.length - m.loopJ, waiting := some m.loopK,
                           items := dropData m.loopJ m.items, loopN := m.loopN - 1 },
-        { ({ a with consumed := a.consumed + s.loopJ } : Reader) with waiting := some s.loopK }, rfl, ?_, ?_, hbad, rfl,
+        { ({ a with consumed := a.consumed + s.loopJ } : Reader) with waiting := some s.loopK }, rfl, trivial, ?_, ?_, hbad, rfl,
         ⟨rfl, rfl, rfl, rfl⟩, ⟨rfl, rfl, rfl, rfl⟩, (by show s.loopN - 1 ≤ s.loopN; omega),
         fun _ => (by show s.loopN - 1 < s.loopN; omega)⟩
       · intro rest
@@ -168,7 +173,7 @@ theorem appCallback_succ (s : XSt) (m : MSt) (a : Reader) (k : Nat) (recs : List
     · rw [if_neg hJa] at e
       simp only [Prod.mk.injEq] at e
       obtain ⟨rfl, rfl⟩ := e
-      refine ⟨_, { m with known := a.visible.length, waiting := none, loopN := 0 }, a, rfl, ?_, ?_, hbad, rfl,
+      refine ⟨_, { m with known := a.visible.length, waiting := none, loopN := 0 }, a, rfl, trivial, ?_, ?_, hbad, rfl,
         ⟨rfl, rfl, rfl, rfl⟩, ⟨rfl, rfl, rfl, rfl⟩, Nat.zero_le _, fun hp => absurd hpn hp⟩
       · intro rest
         show judgeRecs m (.succ _ _ :: rest) = _
@@ -178,7 +183,7 @@ theorem appCallback_succ (s : XSt) (m : MSt) (a : Reader) (k : Nat) (recs : List
   · rw [if_neg hN] at e
     simp only [Prod.mk.injEq] at e
     obtain ⟨rfl, rfl⟩ := e
-    refine ⟨_, { m with known := a.visible.length, waiting := none }, a, rfl, ?_, ?_, hbad, rfl,
+    refine ⟨_, { m with known := a.visible.length, waiting := none }, a, rfl, trivial, ?_, ?_, hbad, rfl,
       ⟨rfl, rfl, rfl, rfl⟩, ⟨rfl, rfl, rfl, rfl⟩, Nat.le_refl _, fun hp => absurd hpn hp⟩
     · intro rest
       show judgeRecs m (.succ _ _ :: rest) = _
@@ -232,7 +237,7 @@ theorem recv_split (d : Bytes) (rest : List KAns) (space : Nat) (hd : d ≠ []) 
 
 theorem spinR_sound : ∀ (fuel : Nat) (s : XSt) (m : MSt) (a : Reader) (recs : List CbRec),
     RRel s m a → s.bad = none → need s ≤ fuel →
-    ∃ new m' a', (spinR fuel s recs).2 = recs ++ new ∧
+    ∃ new m' a', (spinR fuel s recs).2 = recs ++ new ∧ (∀ r ∈ new, Readable r) ∧
       (∀ rest, judgeRecs m (new.map convRec ++ rest) = judgeRecs m' rest) ∧
       RRel (spinR fuel s recs).1 m' a' ∧ (spinR fuel s recs).1.bad = none ∧ Quiet (spinR fuel s recs).1 ∧
       SameW s (spinR fuel s recs).1 ∧ SameMW m m' := by
@@ -248,13 +253,13 @@ theorem spinR_sound : ∀ (fuel : Nat) (s : XSt) (m : MSt) (a : Reader) (recs : 
     have cont : ∀ (s1 : XSt) (a1 : Reader) (k : Nat), RPre s1 m a1 k → s1.bad = none →
         s1.loopN + rqWeight s1.rq + 1 ≤ f → SameW s s1 →
         ∃ new m' a', (spinR f (appCallback s1 0 recs).1 (appCallback s1 0 recs).2).2 = recs ++ new ∧
-          (∀ rest, judgeRecs m (new.map convRec ++ rest) = judgeRecs m' rest) ∧
+          (∀ r ∈ new, Readable r) ∧ (∀ rest, judgeRecs m (new.map convRec ++ rest) = judgeRecs m' rest) ∧
           RRel (spinR f (appCallback s1 0 recs).1 (appCallback s1 0 recs).2).1 m' a' ∧
           (spinR f (appCallback s1 0 recs).1 (appCallback s1 0 recs).2).1.bad = none ∧
           Quiet (spinR f (appCallback s1 0 recs).1 (appCallback s1 0 recs).2).1 ∧
           SameW s (spinR f (appCallback s1 0 recs).1 (appCallback s1 0 recs).2).1 ∧ SameMW m m' := by
       intro s1 a1 k hpre hbad1 hf1 hsw
-      obtain ⟨rec, m1, a2, e1, hj1, hr1, hb1, hrq1, hsw1, hmw1, hle, hlt⟩ := appCallback_succ s1 m a1 k recs hpre hbad1
+      obtain ⟨rec, m1, a2, e1, hrd1, hj1, hr1, hb1, hrq1, hsw1, hmw1, hle, hlt⟩ := appCallback_succ s1 m a1 k recs hpre hbad1
       have hneed : need (appCallback s1 0 recs).1 ≤ f := by
         unfold need
         rw [hrq1]
@@ -263,10 +268,14 @@ theorem spinR_sound : ∀ (fuel : Nat) (s : XSt) (m : MSt) (a : Reader) (recs : 
         · rename_i hp
           have := hlt hp
           omega
-      obtain ⟨new, m', a', e2, hj2, hr2, hb2, hq2, hsw2, hmw2⟩ :=
+      obtain ⟨new, m', a', e2, hrd2, hj2, hr2, hb2, hq2, hsw2, hmw2⟩ :=
         ih (appCallback s1 0 recs).1 m1 a2 (appCallback s1 0 recs).2 hr1 hb1 hneed
-      refine ⟨rec :: new, m', a', ?_, ?_, hr2, hb2, hq2, (hsw.trans hsw1).trans hsw2, hmw1.trans hmw2⟩
+      refine ⟨rec :: new, m', a', ?_, ?_, ?_, hr2, hb2, hq2, (hsw.trans hsw1).trans hsw2, hmw1.trans hmw2⟩
       · rw [e2, e1]; simp
+      · intro r hr
+        rcases List.mem_cons.1 hr with rfl | hr
+        · exact hrd1
+        · exact hrd2 r hr
       · intro rest
         simp only [List.map_cons, List.cons_append]
         rw [hj1, hj2]
@@ -276,7 +285,7 @@ theorem spinR_sound : ∀ (fuel : Nat) (s : XSt) (m : MSt) (a : Reader) (recs : 
     have hav := h.rel.avail
     cases hp : s.r.pending with
     | none =>
-      exact ⟨[], m, a, by simp, fun _ => rfl, h, hbad, Or.inl hp, SameW.refl s, SameMW.refl m⟩
+      exact ⟨[], m, a, by simp, (fun _ hr => by cases hr), fun _ => rfl, h, hbad, Or.inl hp, SameW.refl s, SameMW.refl m⟩
     | immediate =>
       simp only
       -- the wait can be satisfied from the buffer
@@ -316,7 +325,7 @@ theorem spinR_sound : ∀ (fuel : Nat) (s : XSt) (m : MSt) (a : Reader) (recs : 
           rw [if_neg (by simp [hp])] at hfuel
           exact hfuel
         cases hq : s.rq with
-        | nil => exact ⟨[], m, a, by simp, fun _ => rfl, h, hbad, Or.inr ⟨hp, hq⟩, SameW.refl s, SameMW.refl m⟩
+        | nil => exact ⟨[], m, a, by simp, (fun _ hr => by cases hr), fun _ => rfl, h, hbad, Or.inr ⟨hp, hq⟩, SameW.refl s, SameMW.refl m⟩
         | cons ans rest =>
           have hrqne' : ∀ x, KAns.data x ∈ rest → x ≠ [] :=
             fun x hx => h.rqne x (by rw [hq]; exact List.mem_cons_of_mem _ hx)
@@ -326,9 +335,9 @@ theorem spinR_sound : ∀ (fuel : Nat) (s : XSt) (m : MSt) (a : Reader) (recs : 
             simp only
             have hr1 : RRel { s with rq := rest } m a :=
               ⟨h.rel, by rw [h.toks, hq]; rfl, h.known, h.waiting, h.waitk, h.loopN, h.loopJK, hrqne'⟩
-            obtain ⟨new, m', a', e2, hj2, hr2, hb2, hq2, hsw2, hmw2⟩ := ih { s with rq := rest } m a recs hr1 hbad
+            obtain ⟨new, m', a', e2, hrd2, hj2, hr2, hb2, hq2, hsw2, hmw2⟩ := ih { s with rq := rest } m a recs hr1 hbad
               (by unfold need; simp only [rqWeight] at hneed ⊢; split <;> omega)
-            exact ⟨new, m', a', e2, hj2, hr2, hb2, hq2, hsw2, hmw2⟩
+            exact ⟨new, m', a', e2, hrd2, hj2, hr2, hb2, hq2, hsw2, hmw2⟩
           | data d =>
             simp only
             have hspace : 0 < s.r.buflen - s.r.datalen := by
@@ -362,9 +371,9 @@ theorem spinR_sound : ∀ (fuel : Nat) (s : XSt) (m : MSt) (a : Reader) (recs : 
                 ⟨hr', by rw [htoks1, ← hvis],
                  by rw [hvis, List.length_append]; have := h.known; omega,
                  hmw.trans haw.symm, h.waitk, h.loopN, h.loopJK, hne1 hrqne'⟩
-              obtain ⟨new, m', a', e2, hj2, hr2, hb2, hq2, hsw2, hmw2⟩ := ih _ m _ recs hr1 hbad
+              obtain ⟨new, m', a', e2, hrd2, hj2, hr2, hb2, hq2, hsw2, hmw2⟩ := ih _ m _ recs hr1 hbad
                 (by unfold need; show s.loopN + rqWeight rq1 + _ ≤ f; split <;> omega)
-              exact ⟨new, m', a', e2, hj2, hr2, hb2, hq2, hsw2, hmw2⟩
+              exact ⟨new, m', a', e2, hrd2, hj2, hr2, hb2, hq2, hsw2, hmw2⟩
           | eof =>
             simp only
             obtain ⟨e, hr'⟩ := Proofs.NetbufRead.net_end_rel h.rel k haw hnk .eof 1 (Or.inl ⟨rfl, rfl⟩)
@@ -380,9 +389,9 @@ theorem spinR_sound : ∀ (fuel : Nat) (s : XSt) (m : MSt) (a : Reader) (recs : 
                 { m with items := dropMark m.items, waiting := none, loopN := 0 } { a with waiting := none } :=
               ⟨hr', by show toks (dropMark m.items) = _; rw [toks_dropMark, h.toks, hq, dropMarkT_bytes]; rfl,
                h.known, rfl, (fun _ h0 => by simp at h0), rfl, (fun h0 => by simp at h0), hrqne'⟩
-            obtain ⟨new, m', a', e2, hj2, hr2, hb2, hq2, hsw2, hmw2⟩ := ih _ _ _ (recs ++ [.status 1]) hr1 hbad
+            obtain ⟨new, m', a', e2, hrd2, hj2, hr2, hb2, hq2, hsw2, hmw2⟩ := ih _ _ _ (recs ++ [.status 1]) hr1 hbad
               (by show 0 + rqWeight rest + 1 ≤ f; simp only [rqWeight] at hneed; omega)
-            refine ⟨.status 1 :: new, m', a', by rw [e2]; simp, ?_, hr2, hb2, hq2, hsw2, hmw2⟩
+            refine ⟨.status 1 :: new, m', a', by rw [e2]; simp, (fun r hr => by rcases List.mem_cons.1 hr with rfl | hr; exact trivial; exact hrd2 r hr), ?_, hr2, hb2, hq2, hsw2, hmw2⟩
             intro rest'
             simp only [List.map_cons, List.cons_append, convRec]
             rw [hj, hj2]
@@ -401,9 +410,9 @@ theorem spinR_sound : ∀ (fuel : Nat) (s : XSt) (m : MSt) (a : Reader) (recs : 
                 { m with items := dropMark m.items, waiting := none, loopN := 0 } { a with waiting := none } :=
               ⟨hr', by show toks (dropMark m.items) = _; rw [toks_dropMark, h.toks, hq, dropMarkT_bytes]; rfl,
                h.known, rfl, (fun _ h0 => by simp at h0), rfl, (fun h0 => by simp at h0), hrqne'⟩
-            obtain ⟨new, m', a', e2, hj2, hr2, hb2, hq2, hsw2, hmw2⟩ := ih _ _ _ (recs ++ [.status (-1)]) hr1 hbad
+            obtain ⟨new, m', a', e2, hrd2, hj2, hr2, hb2, hq2, hsw2, hmw2⟩ := ih _ _ _ (recs ++ [.status (-1)]) hr1 hbad
               (by show 0 + rqWeight rest + 1 ≤ f; simp only [rqWeight] at hneed; omega)
-            refine ⟨.status (-1) :: new, m', a', by rw [e2]; simp, ?_, hr2, hb2, hq2, hsw2, hmw2⟩
+            refine ⟨.status (-1) :: new, m', a', by rw [e2]; simp, (fun r hr => by rcases List.mem_cons.1 hr with rfl | hr; exact trivial; exact hrd2 r hr), ?_, hr2, hb2, hq2, hsw2, hmw2⟩
             intro rest'
             simp only [List.map_cons, List.cons_append, convRec]
             rw [hj, hj2]
